@@ -111,6 +111,10 @@ def analyze(scen, r, props):
             running.pop(jobid, None)
             if code == 0:
                 ok_body.add(jobid)
+        elif k == "marker_done":
+            # the success marker is written: the job has succeeded, whatever happens to the rest of its process
+            succeeded.add(e[1])
+            done_at.setdefault(e[2], i)
         elif k == "released":
             # a job "runs under the token" until it gives up its run lock (what is left is the exit of the interpreter)
             live.pop(e[3], None)
@@ -166,7 +170,7 @@ def analyze(scen, r, props):
         finished = rec["jobs"] != {} or rec["xps"]
         any_error = False
         for var, j in rec["jobs"].items():
-            if j.get("dup"):
+            if j.get("dup") or (scen.get("dup_threads") and j["state"] == "UNSCHEDULED"):
                 # the job object of a duplicate submission is discarded by the scheduler
                 continue
             x, st = j["x"], j["state"]
@@ -223,15 +227,32 @@ def analyze(scen, r, props):
                 if xr["unfinished"] not in (0, None):
                     V("C06", f"unfinished-count:{xr['unfinished']}", f"experiment {xr['name']} ended with unfinishedJobs={xr['unfinished']}")
                 errs = [v for v, j in rec["jobs"].items() if j["state"] == "ERROR" and j.get("xp") == xr["name"]]
-                nonfinal = [v for v, j in rec["jobs"].items() if j["state"] not in FINAL and j.get("xp") == xr["name"] and not j.get("dup")]
+                nonfinal = [v for v, j in rec["jobs"].items() if j["state"] not in FINAL and j.get("xp") == xr["name"] and not j.get("dup")
+                            and not (scen.get("dup_threads") and j["state"] == "UNSCHEDULED")]
                 if nonfinal:
                     V("C06", "experiment-exited-early", f"experiment {xr['name']} returned while {nonfinal} are not final")
                 resubmitted = any(len(j["codes"]) > 1 for j in jobs.values())
                 if bool(errs) != xr["failed"] and not resubmitted:
                     V("C07", f"exit-reports-{'failure' if xr['failed'] else 'success'}", f"experiment {xr['name']}: jobs in error {errs}, FailedExperiment raised: {xr['failed']}")
+        if scen.get("dup_threads"):
+            ids = {}
+            for var, j in rec["jobs"].items():
+                ids.setdefault(j["id"], []).append(var)
+            for xr in rec["xps"]:
+                if xr["registry"] is not None and xr["registry"] != len(ids):
+                    V("C05", "registry-size", f"{xr['registry']} registry entries for {len(ids)} distinct job identifiers")
+            for jid, ls in launches.items():
+                if len(ls) > 1 and not any(c != 0 for c in exits.get(jid, [])):
+                    V("C05", "two-processes-for-one-submission-set", f"{id2name.get(jid)}: {len(ls)} processes launched by one scheduler for identical submissions")
+            for e in rec.get("thread_exc", []):
+                V("C05", "thread-raised", f"user thread raised {e}")
         for d in rec["dups"]:
             if not d.get("after_fail") and not d["same_output"]:
-                V("C05", "duplicate-submission-new-job", f"submitting a configuration identical to {d['of']} returned another output / job: {d}")
+                if "NoneType" in d.get("outputs", []):
+                    V("C05", "duplicate-submission-returns-none", f"a submission identical to {d['of']}, made by another thread while the first was still inside "
+                      f"submit(), got None instead of the first submission's output: {d}")
+                else:
+                    V("C05", "duplicate-submission-new-job", f"submitting a configuration identical to {d['of']} returned another output / job: {d}")
     # C11: over the killed run and the restarted run every successful body ran exactly once, everything ends DONE
     if "C11" in props and scen.get("restart") and not r.get("hung") and not r.get("main_exc"):
         starts = {}
